@@ -330,6 +330,8 @@ def shards(tier, seed):
             out.append(("d1", mode, a))
         out.append(("unary", mode))
         out.append(("d2", mode))
+    out.append(("temps", "Fraction"))
+    out.append(("temps", "float"))
     return out
 
 
@@ -516,8 +518,53 @@ def run_d2(acc, mode, tier):
     acc.sample({"mode": mode, "tree": ["(a.b).c", "5m", "+", "2m", "/", "3s"], "spellings": [list(LEAVES["5m"][1]), list(LEAVES["2m"][0]), list(LEAVES["3s"][1])]})
 
 
+# ----------------------------------------------------------------------------- comparisons of temperatures
+
+# kelvin value -> the same temperature in every scale of the bundled registry (exact decimals)
+TEMPS = {
+    "300": [("300", "kelvin"), ("2685/100", "degC"), ("8033/100", "degF"), ("540", "degR"), ("300000", "millikelvin")],
+    "27315/100": [("27315/100", "kelvin"), ("0", "degC"), ("32", "degF"), ("49167/100", "degR")],
+    "23315/100": [("23315/100", "kelvin"), ("-40", "degC"), ("-40", "degF"), ("41967/100", "degR")],
+    "100": [("100", "kelvin"), ("-17315/100", "degC"), ("180", "degR")],
+}
+CMP = ("<", "<=", ">", ">=", "==", "!=")
+
+
+def run_temperatures(acc, mode):
+    """ordering and equality are in the operator list of the property, and an absolute temperature is a
+    physical quantity whatever scale expresses it: every comparison of two temperatures must give the
+    answer the kelvin values give, for every pair of scales"""
+    ureg = get_reg(mode)
+    for ka, va in TEMPS.items():
+        for kb, vb in TEMPS.items():
+            if mode != "Fraction" and ka == kb:
+                continue  # ties under rounded scale factors are left to the exact mode
+            for op in CMP:
+                want = BIN[op](Fraction(ka), Fraction(kb))
+                for sa in va:
+                    for sb in vb:
+                        acc.ev()
+                        acc.nt(("temp", mode, op, sa, sb))
+                        o = run_op(lambda: bool(BIN[op](mk_leaf(ureg, "Fraction" if mode == "Fraction" else "float", sa), mk_leaf(ureg, "Fraction" if mode == "Fraction" else "float", sb))))
+                        if o != ("ok", want):
+                            acc.violation(["covariance", op, "temperature-scales", "comparison-depends-on-the-scale-used", mode], {"mode": mode, "a": list(sa), "b": list(sb), "kelvin": [ka, kb]}, want, show(o))
+                        # sorted()/min()/max() use the same operators
+            acc.outcome("temperature-pair")
+    # sorting a mixed list is a program over the comparison operators
+    allq = [(Fraction(k), mk_leaf(ureg, "Fraction" if mode == "Fraction" else "float", sp)) for k, v in TEMPS.items() for sp in v]
+    for rot in range(len(allq)):
+        acc.ev()
+        lst = allq[rot:] + allq[:rot]
+        o = run_op(lambda: [k for k, q in sorted(lst, key=lambda kq: kq[1])])
+        if o[0] != "ok" or o[1] != sorted(k for k, q in lst):
+            acc.violation(["covariance", "sorted", "temperature-scales", "comparison-depends-on-the-scale-used", mode], {"mode": mode, "rotation": rot}, "ascending kelvin values", show(o))
+    acc.sample({"clause": "covariance", "what": "temperature comparisons", "mode": mode, "example": "Q(26.85, degC) > Q(280, K)  ==  Q(300, K) > Q(280, K)"})
+
+
 def run_shard(acc, shard, tier, seed):
     k = shard[0]
+    if k == "temps":
+        return run_temperatures(acc, shard[1])
     if k == "d1":
         run_d1(acc, shard[1], shard[2])
     elif k == "unary":
@@ -533,7 +580,9 @@ def replay(rec):
     acc = core.Acc(PROPERTY)
     mode = case.get("mode", "Fraction")
     tree = case.get("tree", [])
-    if site[2] == "depth2":
+    if site[2] == "temperature-scales":
+        run_temperatures(acc, mode)
+    elif site[2] == "depth2":
         run_d2(acc, mode, rec.get("tier", "quick"))
     elif site[2] == "unary" or (len(tree) == 2):
         run_unary(acc, mode)
@@ -551,8 +600,9 @@ MANIFEST = {
     "for 14 binary operators in plain, reflected and in-place form plus neg/pos/abs, is evaluated under EVERY spelling assignment; depth-2 trees (a.b).c and a.(b.c) over {+,-,*,/}. Scalars in the "
     "Fraction registry are compared exactly; 1-d ndarray magnitudes in the float registry (where in-place forms really are in place) with 1e-9. Each tree's results must agree across spellings, "
     "match an exact value/dimension calculator written from the property statement (which decides DimensionalityError / number-acceptance clauses), and leave every operand other than an in-place "
-    "target bit-identical.",
-    "note": "Trusted: the 80-line reference calculator and R1 factors. Offset units are C06's subject; trees deeper than 2 and leaves outside the alphabet are outside the bound; ZeroDivision outcomes "
+    "target bit-identical. The six comparison operators and sorted() are additionally run over 4 absolute temperatures, each written in every scale of the bundled registry (K, degC, degF, degR, mK): every "
+    "ordered pair of spellings must compare as the kelvin values do.",
+    "note": "Trusted: the 80-line reference calculator and R1 factors. Arithmetic on offset units is C06's subject (only their comparisons are covered here); trees deeper than 2 and leaves outside the alphabet are outside the bound; ZeroDivision outcomes "
     "for float/ndarray magnitudes are not compared (IEEE inf/nan semantics).",
     "ref": "DESIGN.md §4 C03",
 }
